@@ -291,10 +291,12 @@ structure TopDef where
   lex : List (Lexeme × List Char)
   decls : List Decl
 
-/-- the text consists of exactly these lexemes (no comment is left open, no leading blanks), ends a top-level declaration, and
+/-- the text consists of exactly these lexemes whatever stands in front of it and behind it (no comment is left open, no leading
+    blanks, no comment at either end whose replacement would depend on the neighbouring text), ends a top-level declaration, and
     parses to these declarations without error -/
 def TopDef.ok (d : TopDef) : Prop :=
-  Cstruct.Parser.Closed d.text (render d.lex) ∧ adm false d.lex = true ∧ endsTop d.lex = true ∧ parseDecls d.text = (d.decls, none)
+  (∀ p n, Cstruct.Parser.Closed p d.text n (render d.lex)) ∧ adm false d.lex = true ∧ endsTop d.lex = true ∧
+  parseDecls d.text = (d.decls, none)
 
 /-- `d` ends at a boundary with respect to a continuation `d'` -/
 def TopDef.before (d d' : TopDef) : Prop := boundary d.lex d.decls (firstObs d'.lex)
